@@ -135,3 +135,13 @@ Theorem C02_src_sites_read_only : impl_src_sends = Facts_sites.flit "GetEntries,
 Proof. reflexivity. Qed.
 Print Assumptions C02_walked_never_through.
 Print Assumptions C02_spec_untouched.
+
+(* ---- F14: the name under which a file or symlink source is placed inside a trailing-slash destination (Model/RootName.v) *)
+From RJ Require Import Model.RootName Proofs.RootNameProofs.
+From Coq Require Import String.
+Theorem C02_inside_root_adds_one_component : forall src dest, exists name, inside_root false src dest = dest ++ name /\ name = posix_basename src /\ Forall (fun c => c <> "/"%char) name.
+Proof. exact C01_inside_root_is_child. Qed.
+Theorem C02_F14_refuted_before_fix : exists src dest, posix_basename src = s_of "x\.." /\ inside_root_old src dest = s_of "box/dest/.." /\ inside_root false src dest = s_of "box/dest/x\..".
+Proof. exact F14_old_name_escapes. Qed.
+Print Assumptions C02_inside_root_adds_one_component.
+Print Assumptions C02_F14_refuted_before_fix.
